@@ -10,12 +10,16 @@
 //         X                    ScriptContext::Execute()
 //         R                    director.Reset() at a frame boundary
 //         C <k>                recompile script t<k> (same text) at a frame boundary
+//         M <k> | MO | MF      a host ExecuteThread that is refused: label missing in t<k> / in other.scr / file missing
 //         D                    destroy the context (only as the last op)
 //   instr (model):  p<m>  println marker | w<ms>  wait | T( .. )  thread block | W( .. )  waitthread block
 //                   R  `level.host host_reset` (Reset from inside a host command)
 //                   C  `level.host host_recompile` (recompile the RUNNING script from inside a host command)
 //                   st<k>  level.r<k> = local | ps  pause | xw<k>.<ms>  level.r<k> wait | xf<k>  level.r<k> waitframe | xp<k>  level.r<k> pause
 //                   (timing commands applied to ANOTHER thread through a stored reference)
+//                   Wm  waitthread nolabel (a new instance whose start fails)
+//                   gs<v>.<x>  level|game|parm.va|vb|vc = x | gp<v>  prints 9100 + 10 v + its value (0 when it is not set)
+//   instr (ext):    tm om ow em tf wf ef eo: failing starts of the other kinds (same instance / by an object / other file / missing file)
 //   instr (ext):    o<k> local.o<k> = spawn Ent targetname "n<k>" | g<k> level.g<k> = spawn Ent | x<k> $n<k> remove
 //                   t<k>.<n> $n<k> waittill "s<n>" | n<k>.<n> $n<k> notify "s<n>" | e<k>.<n> local endon? (not used)
 //                   wp  local.parent waittill "never" (the parent thread is passed to every thread block)
@@ -142,6 +146,27 @@ struct Gen {
             }
             else if (w == "R") out += "level.host host_reset\n";
             else if (w == "C") out += "level.host host_recompile\n";
+            else if ((w.rfind("gs", 0) == 0 || w.rfind("gp", 0) == 0) && w.size() > 2 && isdigit((unsigned char)w[2])) {
+                // a variable of level / game / parm (v / 3) named va / vb / vc (v % 3)
+                static const char* const NS[3] = { "level", "game", "parm" };
+                static const char* const NM[3] = { "va", "vb", "vc" };
+                const int v = std::atoi(w.c_str() + 2);
+                const std::string var = std::string(NS[(v / 3) % 3]) + "." + NM[v % 3];
+                if (w[1] == 's') out += var + " = " + w.substr(w.find('.') + 1) + "\n";
+                else {
+                    const std::string base = std::to_string(9100 + 10 * v);
+                    out += "if (" + var + ") { println (" + base + " + " + var + ") } else { println " + base + " }\n";
+                }
+            }
+            else if (w == "Wm") out += "waitthread nolabel local\n";                 // a NEW instance of this script, label missing
+            else if (w == "tm") out += "thread nolabel local\n";                     // same instance, label missing
+            else if (w == "om") out += "local.mo = local CreateListener\nlocal.mo thread nolabel\n";       // an object starts it: new instance
+            else if (w == "ow") out += "local.mo = local CreateListener\nlocal.mo waitthread nolabel\n";
+            else if (w == "em") out += "exec other.scr::nolabel\n";                  // other file, label missing
+            else if (w == "tf") out += "thread other.scr::nolabel\n";
+            else if (w == "wf") out += "waitthread other.scr::nolabel\n";
+            else if (w == "ef") out += "exec nofile.scr\n";                          // missing file
+            else if (w == "eo") out += "exec other.scr\n";                           // (a start that succeeds, for contrast)
             else if (w == "ps") out += "pause\n";
             else if (w.rfind("st", 0) == 0 && w.size() > 2 && isdigit((unsigned char)w[2])) out += "level.r" + w.substr(2) + " = local\n";
             else if (w.rfind("xp", 0) == 0 && w.size() > 2) out += "level.r" + w.substr(2) + " pause\n";
@@ -225,6 +250,7 @@ int main(int argc, char** argv)
         g_engine = e;
         g_host = new Host;
         installHost();
+        e->files.files["other.scr"] = "main:\nend\n";
         int nextTid = 0;
         bool destroyed = false;
         std::printf("case %s\n", id.c_str());
@@ -247,6 +273,19 @@ int main(int argc, char** argv)
                     g_sources[name] = src;
                     if (scr && scr->IsCompileSuccess()) e->director().ExecuteThread(scr);
                     else g_viol.push_back("harness: script did not compile");
+                } else if (c == "M" || c == "MO" || c == "MF") {
+                    // a host-side thread start that fails: label missing in script t<k> / in other.scr / missing file
+                    int k = 0; is >> k;
+                    installHost();
+                    try {
+                        if (c == "MF") e->director().ExecuteThread(StringResolvable("nofile.scr"), StringResolvable("main"));
+                        else {
+                            const std::string nm = "t" + std::to_string(k);
+                            const ProgramScript* scr = c == "MO" ? e->director().GetProgramScript("other.scr")
+                                                     : g_sources.count(nm) ? e->director().GetProgramScript(nm.c_str()) : nullptr;
+                            if (scr && scr->IsCompileSuccess()) e->director().ExecuteThread(scr, StringResolvable("nolabel"));
+                        }
+                    } catch (std::exception&) { /* expected: the start is refused */ }
                 } else if (c == "E") {
                     int k; is >> k;
                     installHost();
